@@ -12,7 +12,7 @@
 From stdpp Require Import gmap numbers list.
 From Coq Require Import ZArith.
 Require Import Model.Bytes Model.Bank Model.Hashes Model.Merkle Model.System.
-Require Model.L1 Model.L2.
+Require Model.L1 Model.L2 Model.Genesis1.
 Require Import Proofs.MerkleProofs Proofs.C03Binding Proofs.C04Proofs Proofs.C08Proofs Proofs.C08Drain Proofs.C08Schedule.
 
 (* After ANY system history from fresh states, for every L1 denom d with L2 denom
@@ -92,6 +92,48 @@ Theorem C08_drain_claims : ∀ (c : scfg) (s0 : sys) (e : L1.env) (sender : byte
   denom_collision c ∨ Collision (L1.hash (c1 c)).
 Proof. exact c08_drain_claims. Qed.
 
+(* C08_drain.  From ANY state s reachable from genesis, the schedule [drain] -
+     relay every pending emitted event in order (executor ex, any hook descriptions hk);
+     propose the honest output over ALL withdrawals recorded after those relays (index idx =
+     the bridge's next output index, by its proposer, at block time e1);
+     at a block time e2 at least the finalization period later, submit the claims of the
+     listed sequences ms, where ms is ANY duplicate-free enumeration of the claimable sequences
+     (recorded, unpaid, positive amount, L1-valid recipient) of the state after the relays -
+   has EVERY step accepted (each pending deposit is credited or refunded; every claim is Ok),
+   after which: a second submission of any of those claims is rejected, whatever its
+   parameters (exactly once); no emitted deposit is pending; every record that is still unpaid
+   is an excluded one (zero amount, or a recipient that is not an L1 address - DESIGN section
+   7); and the equation holds, i.e. escrow(b,d) = supply2(d') + donations(d) + sum of the
+   excluded records of d'.  Or a denom collision / an explicit hash collision is exhibited.
+   Hypotheses: the codecs reject the empty string; the hash has 32-byte outputs of bytes;
+   ex is a current executor; counters do not wrap (bridge id, next L2 sequence <= 2^64). *)
+Theorem C08_drain : ∀ (c : scfg) (s0 : sys) (h : list smsg) (ex : bytes) (height : N) (hk : N → L2.hookp)
+    (e1 : L1.env) (proposer : bytes) (idx l2b v : N) (bh : bytes) (e2 : L1.env) (sender : bytes)
+    (ms : list N) (x : L1.config),
+  genesis c s0 → L2.resolve (c2 c) [] = None → L1.resolve (c1 c) [] = None → Genesis1.hash_wf (c1 c) →
+  (1 ≤ bid c < 18446744073709551616)%N → height ≠ 0%N → length bh = 32%nat → (1 ≤ idx)%N →
+  let s := sys_run c s0 h in
+  L2.is_executor (c2 c) (l2 s) ex = true →
+  L1.configs (l1 s) !! bid c = Some x → proposer = L1.c_proposer x → is_Some (L1.resolve (c1 c) proposer) →
+  idx = L1.out_of (l1 s) (bid c) →
+  (if (idx =? 1)%N then true
+   else match L1.outputs (l1 s) !! (bid c, (idx - 1)%N) with Some o => (L1.o_l2 o <? l2b)%N | None => false end) = true →
+  (L1.now e1 + L1.c_period x ≤ L1.now e2)%Z → is_Some (L1.resolve (c1 c) sender) →
+  let s1 := sys_run c s (relay_steps ex height hk (pending_seqs c s)) in
+  (L2.next_l2 (l2 s1) ≤ 18446744073709551616)%N →
+  NoDup ms → (∀ m, m ∈ ms ↔ claimable c s1 m) →
+  let sched := drain c s ex height hk e1 proposer idx l2b v bh e2 sender ms in
+  let s' := sys_run c s sched in
+  (Forall (λ b, b = true) (sys_oks c s sched) ∧
+   (∀ m e' sender' idx' lo' hi' v' bh', m ∈ ms →
+      (sys_step c s' (SClaim e' sender' idx' m lo' hi' v' bh')).2 = false) ∧
+   (∀ d, pending_dep c s' d = 0%Z) ∧
+   (∀ w, w ∈ L2.wlog (l2 s') → L2.w_seq w ∉ paid s' →
+         ¬ ((0 < L2.w_amt w)%Z ∧ is_Some (L1.resolve (c1 c) (L2.w_to w)))) ∧
+   (∀ d, solvent c s' d ∨ denom_collision c)) ∨
+  denom_collision c ∨ Collision (L1.hash (c1 c)).
+Proof. exact c08_drain. Qed.
+
 (* Conservation of combined holdings.  After ANY system history from fresh states: what is held
    of d on L1 outside the escrow (sum of all L1 balances of d minus the escrow's), plus the L2
    supply of the derived denom, plus the value in flight (unrelayed deposits, unpaid
@@ -109,4 +151,5 @@ Print Assumptions C08_invariant_step.
 Print Assumptions C08_drain_funded.
 Print Assumptions C08_drain_claim.
 Print Assumptions C08_drain_claims.
+Print Assumptions C08_drain.
 Print Assumptions C08_holdings_conserved.
